@@ -1,1 +1,293 @@
-/- C04: property theorems go here (only property theorems, non-vacuity examples, #print axioms). -/
+import StorageModel.C04.Exact
+import StorageModel.C04.SpecProofs
+import StorageModel.C04.OldRoute
+/-
+  C04 — Foreign keys: targets exist, back-references exact, delete restricts or cascades.
+
+  "An entity can be created or updated to reference another entity only if that target exists (or the
+  reference is null and the field is nullable), and after any committed history the target's
+  back-reference set equals exactly the set of entities currently referencing it. Deleting a
+  referenced entity is either refused with a reference-exists error (restrict) or deletes exactly the
+  entities that reference it and nothing else (cascade) - for every possible id value, including ids
+  containing quotes, backslashes or filter keywords."
+
+  The model (`StorageModel/C04/Model.lean`) follows boltz/indexes.go and boltz/store_crud.go; it is tied
+  to /repo by the correspondence harness (/verif/harness/c04.go).  All theorems quantify over every
+  schema variant, every id (any byte string) and every history.
+
+  History: until commit bda5470 `DeleteById` recursed through `fkDeleteCascadeConstraint` without a
+  visited set, so a delete on a cascade-delete reference cycle (already a self reference) never returned
+  (fatal stack overflow) — found by this check.  The repaired code remembers the entities whose cascade
+  is in progress and steps over them; the model follows it, `cascade_terminates` is the explicit
+  termination argument and `cascade_exact` holds for every state, cycles and self references included.
+-/
+namespace StorageModel.Properties.C04
+open StorageModel StorageModel.C04
+
+/-- **Invariant over all histories**: after any sequence of transactions (committed or rolled back),
+    both back-reference sets are exact in both directions: `k` is listed under target `t` iff `k`
+    exists and its fk field currently holds `t`. -/
+theorem fk_inv_reachable (σ : Schema) (txs : List (List Op)) :
+    let s := runHistory σ txs
+    (∀ b k, k ∈ (s.things.lookup b).getD [] ↔ ∃ e, s.as.lookup k = some e ∧ evalVal e.owner = b ∧ b ≠ []) ∧
+    (∀ a k, k ∈ (s.minions.lookup a).getD [] ↔ ∃ e, s.as.lookup k = some e ∧ evalVal e.boss = a ∧ a ≠ []) ∧
+    Inv σ s := by
+  have h : Inv σ (runHistory σ txs) := foldl_inv txs {} (inv_empty σ)
+  refine ⟨?_, ?_, h⟩
+  · intro b k; rw [h.things b k]; simp [none']
+  · intro a k; rw [h.minions a k]; simp [none']
+
+/-- the same for every single operation (also inside a transaction) -/
+theorem fk_inv_step (σ : Schema) (s s' : St) (op : Op) (hI : Inv σ s) (h : apply σ s op = .ok s') : Inv σ s' :=
+  apply_inv op hI h
+
+/-- **Targets exist, null only where nullable** — in every reachable state, for every stored entity. -/
+theorem fk_target_exists (σ : Schema) (txs : List (List Op)) (k : Bytes) (e : EntA)
+    (he : (runHistory σ txs).as.lookup k = some e) :
+    let s := runHistory σ txs
+    (evalVal e.owner ≠ [] → s.bs.contains (evalVal e.owner) = true) ∧
+    (evalVal e.boss ≠ [] ∧ s.as.contains (evalVal e.boss) = true) ∧
+    (evalVal e.dep ≠ [] → s.bs.contains (evalVal e.dep) = true) ∧
+    (σ.depNullable = false → evalVal e.dep ≠ []) := by
+  have h : Inv σ (runHistory σ txs) := foldl_inv txs {} (inv_empty σ)
+  exact ⟨h.ownerT k e he, ⟨h.bossNN k e he, h.bossT k e he (fun hp => hp) (h.bossNN k e he)⟩, h.depT k e he,
+    fun hn => h.depNN hn k e he⟩
+
+/-- **A write needs its targets**: a Create / Update of an A entity that succeeds leaves an entity
+    whose every reference names an entity that exists (for `boss` possibly itself), and a null
+    reference only where the field is nullable.  Contrapositive: a reference to a missing target, or a
+    null in a non-nullable field, makes the write fail (and a failed operation leaves the state). -/
+theorem fk_write_requires_target (σ : Schema) (s s' : St) (op : Op) (id : Bytes) (hI : Inv σ s)
+    (hop : (∃ e, op = .createA id e) ∨ (∃ e mo mb md, op = .updateA id e mo mb md))
+    (h : apply σ s op = .ok s') :
+    ∃ e', s'.as.lookup id = some e' ∧ s'.bs = s.bs ∧
+      (evalVal e'.owner ≠ [] → s.bs.contains (evalVal e'.owner) = true) ∧
+      (evalVal e'.boss ≠ [] ∧ s'.as.contains (evalVal e'.boss) = true) ∧
+      (evalVal e'.dep ≠ [] → s.bs.contains (evalVal e'.dep) = true) ∧
+      (σ.depNullable = false → evalVal e'.dep ≠ []) := by
+  have key : ∀ e', Inv σ s' → s'.as.lookup id = some e' → s'.bs = s.bs →
+      ∃ e', s'.as.lookup id = some e' ∧ s'.bs = s.bs ∧
+      (evalVal e'.owner ≠ [] → s.bs.contains (evalVal e'.owner) = true) ∧
+      (evalVal e'.boss ≠ [] ∧ s'.as.contains (evalVal e'.boss) = true) ∧
+      (evalVal e'.dep ≠ [] → s.bs.contains (evalVal e'.dep) = true) ∧
+      (σ.depNullable = false → evalVal e'.dep ≠ []) := by
+    intro e' hI' he hbs
+    refine ⟨e', he, hbs, ?_, ⟨hI'.bossNN id e' he, hI'.bossT id e' he (fun hp => hp) (hI'.bossNN id e' he)⟩, ?_, fun hn => hI'.depNN hn id e' he⟩
+    · intro hne; rw [← hbs]; exact hI'.ownerT id e' he hne
+    · intro hne; rw [← hbs]; exact hI'.depT id e' he hne
+  rcases hop with ⟨e, rfl⟩ | ⟨e, mo, mb, md, rfl⟩
+  · obtain ⟨hI', has, hbs⟩ := createA_inv hI h
+    exact key e hI' (by rw [has]; simp) hbs
+  · obtain ⟨hI', hbs, cur, _, has⟩ := updateA_inv hI h
+    exact key _ hI' (by rw [has, Map.lookup_insert]; simp only [if_true]; rfl) hbs
+
+/-- **Null is rejected where the field is not nullable** (`boss` always, `dep` in the non-nullable
+    variants): the write fails and the state is unchanged. -/
+theorem null_rejected_when_not_nullable (σ : Schema) (s : St) (id : Bytes) (e : EntA) (hI : Inv σ s)
+    (hnull : evalVal e.boss = [] ∨ (σ.depNullable = false ∧ evalVal e.dep = [])) :
+    (∃ err, step σ s (.createA id e) = (s, some err)) ∧
+    (∃ err, step σ s (.updateA id e true true true) = (s, some err)) := by
+  constructor
+  · unfold step
+    cases h : apply σ s (.createA id e) with
+    | error err => exact ⟨err, rfl⟩
+    | ok s' =>
+      exfalso
+      obtain ⟨e', he', _, _, hb, _, hd⟩ := fk_write_requires_target σ s s' _ id hI (Or.inl ⟨e, rfl⟩) h
+      obtain ⟨_, has, _⟩ := createA_inv hI h
+      rw [has] at he'; simp at he'; subst he'
+      rcases hnull with hn | ⟨hn1, hn2⟩
+      · exact hb.1 hn
+      · exact hd hn1 hn2
+  · unfold step
+    cases h : apply σ s (.updateA id e true true true) with
+    | error err => exact ⟨err, rfl⟩
+    | ok s' =>
+      exfalso
+      obtain ⟨e', he', _, _, hb, _, hd⟩ :=
+        fk_write_requires_target σ s s' _ id hI (Or.inr ⟨e, true, true, true, rfl⟩) h
+      obtain ⟨_, _, cur, _, has⟩ := updateA_inv hI h
+      rw [has] at he'; simp at he'; subst he'
+      rcases hnull with hn | ⟨hn1, hn2⟩
+      · exact hb.1 hn
+      · exact hd hn1 hn2
+
+/-- the error enum in the plain case: a fresh id, no owner, an empty `boss` — "null-not-allowed" -/
+theorem null_boss_enum (σ : Schema) (s : St) (id : Bytes) (e : EntA) (hdf : σ.depFirst = false)
+    (hid : id ≠ []) (hfresh : s.as.contains id = false) (ho : evalVal e.owner = []) (hb : evalVal e.boss = []) :
+    step σ s (.createA id e) = (s, some .nullNotAllowed) := by
+  have hf : ∀ f : EntA → FV, fieldOf { s with as := s.as.insert id e } id f = evalVal (f e) := by
+    intro f; simp [fieldOf]
+  simp [step, apply, createA, hid, hfresh, processAfterUpdateA, orderA, hdf, List.foldlM_cons, afterUpdateA,
+    hf, ho, hb, bind, Except.bind]
+
+/-- **Restrict refuses**: while an A entity refers to `b` through `owner` — or through `dep` in the
+    restrict variant — deleting `b` returns the reference-exists error and changes nothing.
+    (Excluded: the variant in which the dep *cascade* is registered before the restrict check; there
+    the cascade runs first, see `restrict_never_orphans`.) -/
+theorem restrict_refuses (σ : Schema) (s : St) (b : Bytes) (hI : Inv σ s) (hb : s.bs.contains b = true)
+    (href : (∃ k e, s.as.lookup k = some e ∧ evalVal e.owner = b ∧ b ≠ []) ∨
+            (σ.depCascade = false ∧ ∃ k e, s.as.lookup k = some e ∧ e.dep = some b))
+    (hord : ¬ (σ.depFirst = true ∧ σ.depCascade = true)) :
+    step σ s (.deleteB b) = (s, some .refExists) :=
+  deleteB_refuses σ s b hI hb href hord
+
+/-- in *every* variant a successful delete of `b` leaves no entity referring to `b` -/
+theorem restrict_never_orphans (σ : Schema) (s s' : St) (b : Bytes) (hI : Inv σ s)
+    (h : apply σ s (.deleteB b) = .ok s') (k : Bytes) (e : EntA) (he : s'.as.lookup k = some e) :
+    (evalVal e.owner ≠ [] → evalVal e.owner ≠ b) ∧ (evalVal e.dep ≠ [] → evalVal e.dep ≠ b) :=
+  deleteB_no_orphans σ s s' b hI h k e he
+
+/-- **Termination of the cascading delete** — for every schema, state (invariant or not) and id, cycles
+    and self references included: the recursion of `DeleteById` through the cascade constraint comes
+    back.  Argument (`deleteA_terminates`): every nested call is about an entity outside the in-progress
+    set and adds it, the set is duplicate-free and stays inside the key set of the table the outermost
+    call started from, so the depth is bounded by the table size; the fuel `step` supplies (|A| + 1)
+    is never exhausted. -/
+theorem cascade_terminates (σ : Schema) (s : St) (id : Bytes) :
+    apply σ s (.deleteA id) ≠ .error .diverge :=
+  deleteA_top_terminates σ s s id (Sub.refl s)
+
+/-- **Cascade on A is exact and total**, for every id and every state satisfying the invariant — reference
+    cycles and self references included: `DeleteById` on an existing entity succeeds, and removes the
+    target and exactly the entities that refer to it transitively through `boss`; every other entity
+    keeps its stored values, table B is untouched. -/
+theorem cascade_exact (σ : Schema) (s : St) (id : Bytes) (hI : Inv σ s) (hc : s.as.contains id = true) :
+    ∃ s', apply σ s (.deleteA id) = .ok s' ∧
+      s'.bs = s.bs ∧
+      (∀ k e, s'.as.lookup k = some e → s.as.lookup k = some e) ∧
+      (∀ k, s'.as.lookup k = none ↔ (s.as.lookup k = none ∨ k = id ∨ Reach s.as id k)) := by
+  obtain ⟨s', h⟩ := deleteA_succeeds (s0 := s) hI (Sub.refl s) hc
+  exact ⟨s', h, deleteA_exact σ s s' id hI h⟩
+
+/-- **Cascade on B is exact**, for every id: a successful `DeleteById` on B removes `b` from B and from A
+    exactly the entities that refer to `b` through `dep` together with their transitive `boss`
+    referrers (none in the restrict variant, where a successful delete means there were none). -/
+theorem cascade_exact_B (σ : Schema) (s s' : St) (b : Bytes) (hI : Inv σ s)
+    (h : apply σ s (.deleteB b) = .ok s') :
+    s'.bs = s.bs.erase b ∧
+    (∀ k e, s'.as.lookup k = some e → s.as.lookup k = some e) ∧
+    (∀ k, s'.as.lookup k = none ↔ (s.as.lookup k = none ∨ RemovedVia (·.dep) s.as b k)) :=
+  deleteB_exact σ s s' b hI h
+
+/-- **Restrict or cascade, nothing else** (the property's "either … or"): in every state that satisfies
+    the invariant, deleting an existing B entity either succeeds (`cascade_exact_B` says what went) or is
+    refused with the reference-exists error — and it is refused only if some entity refers to it through
+    `owner`, or through `dep` in the restrict variant.  No other error, no divergence. -/
+theorem delete_outcomes (σ : Schema) (s : St) (b : Bytes) (hI : Inv σ s) (hc : s.bs.contains b = true) :
+    (∃ s', apply σ s (.deleteB b) = .ok s') ∨
+    (apply σ s (.deleteB b) = .error .refExists ∧
+      ((∃ k e, s.as.lookup k = some e ∧ evalVal e.owner = b ∧ b ≠ []) ∨
+       (σ.depCascade = false ∧ ∃ k e, s.as.lookup k = some e ∧ e.dep = some b))) := by
+  rcases deleteB_progress hI hc with h | h
+  · exact Or.inl h
+  · exact Or.inr ⟨h, deleteB_refExists_inv hI h⟩
+
+/-- **The referrer lookup is exact for EVERY byte string id** (quotes, backslashes, keywords, anything):
+    the cursor of `fkDeleteCascadeConstraint` yields exactly the entities whose stored fk value is `id`. -/
+theorem referrer_lookup_exact (s : St) (f : EntA → FV) (id x : Bytes) :
+    x ∈ referrers s f id ↔ ∃ e, s.as.lookup x = some e ∧ f e = some id := by
+  rw [mem_referrers, isReferrer_iff]
+
+/-- **The run-time oracle is this spec**: the executable spec (`C04/Spec.lean`, what the check compares
+    the implementation with) computes its cascade set by bounded fixpoint iteration; that set is exactly
+    the seeds plus everything referring to them transitively. -/
+theorem spec_closure_exact (as : Map EntA) (seeds : List Bytes) (k : Bytes) :
+    k ∈ closure as seeds ↔ k ∈ seeds ∨ ∃ x ∈ seeds, Reach as x k :=
+  mem_closure as seeds k
+
+/-- **Refinement on success**: from any state satisfying the invariant (every reachable state), whenever
+    an operation of the model succeeds, the same operation of the spec — which knows only the entity
+    tables — succeeds and yields the same tables. -/
+theorem spec_agrees_on_success (σ : Schema) (s s' : St) (op : Op) (hI : Inv σ s) (h : apply σ s op = .ok s') :
+    ∃ ss', specApply σ (absSt s) op = .ok ss' ∧ (∀ k, ss'.as.lookup k = s'.as.lookup k) ∧
+      (∀ k, ss'.bs.lookup k = s'.bs.lookup k) :=
+  StorageModel.C04.spec_agrees_on_success op hI h
+
+/-! ### non-vacuity and concrete behaviour -/
+
+section Examples
+
+def σ0 : Schema := { depCascade := true, depNullable := true, depFirst := false }
+
+-- ids: k = "k", r = "r", x = `a"b`, y = `x" or id != "`, z = "z"
+def idK : Bytes := [107]
+def idR : Bytes := [114]
+def idX : Bytes := [97, 34, 98]
+def idY : Bytes := [120, 34, 32, 111, 114, 32, 105, 100, 32, 33, 61, 32, 34]
+def idZ : Bytes := [122]
+
+/-- B entity k; root r (self reference); x = `a"b` under r with dep k; y under x; z under r -/
+def hist0 : List (List Op) :=
+  [[.createB idK], [.createA idR ⟨none, some idR, none⟩], [.createA idX ⟨some idK, some idR, some idK⟩],
+   [.createA idY ⟨none, some idX, none⟩], [.createA idZ ⟨none, some idR, none⟩]]
+
+/-- the hypotheses of the theorems above are satisfiable by a non-trivial state -/
+example : ((runHistory σ0 hist0).as.keys = [idZ, idY, idX, idR]) ∧
+    (runHistory σ0 hist0).minions.lookup idR = some [idZ, idX, idR] ∧
+    (runHistory σ0 hist0).things.lookup idK = some [idX] := by decide
+
+/-- deleting `a"b` cascades to exactly its minion `x" or id != "` — r and z survive -/
+example : (step σ0 (runHistory σ0 hist0) (.deleteA idX)).2 = none ∧
+    (step σ0 (runHistory σ0 hist0) (.deleteA idX)).1.as.keys = [idZ, idR] := by decide
+
+/-- restrict: k is referenced through owner -/
+example : (step σ0 (runHistory σ0 hist0) (.deleteB idK)).2 = some .refExists := by decide
+
+/-! #### reference cycles (the stack overflow fixed by bda5470) -/
+
+/-- `A.Create(r, boss = r); A.DeleteById(r)`: succeeds and leaves nothing -/
+def histSelf : List (List Op) := [[.createA idR ⟨none, some idR, none⟩]]
+
+example : (step σ0 (runHistory σ0 histSelf) (.deleteA idR)).2 = none ∧
+    (step σ0 (runHistory σ0 histSelf) (.deleteA idR)).1.as.keys = [] := by decide
+example : Reach (runHistory σ0 histSelf).as idR idR := .direct (e := ⟨none, some idR, none⟩) (by decide) rfl
+
+/-- a two-cycle made by re-parenting (r ← z, then r.boss := z) with a third entity k below z:
+    deleting either member of the cycle removes all three -/
+def histCycle : List (List Op) :=
+  [[.createA idR ⟨none, some idR, none⟩], [.createA idZ ⟨none, some idR, none⟩],
+   [.updateA idR ⟨none, some idZ, none⟩ false true false], [.createA idK ⟨none, some idZ, none⟩]]
+
+example : (step σ0 (runHistory σ0 histCycle) (.deleteA idR)).2 = none ∧
+    (step σ0 (runHistory σ0 histCycle) (.deleteA idR)).1.as.keys = [] ∧
+    (step σ0 (runHistory σ0 histCycle) (.deleteA idZ)).1.as.keys = [] ∧
+    (step σ0 (runHistory σ0 histCycle) (.deleteA idK)).1.as.keys = [idR, idZ] := by decide
+
+/-- … and a B delete that cascades into a self reference -/
+example : (step σ0 (runHistory σ0 ([.createB idK] :: histSelf ++ [[.updateA idR ⟨none, some idR, some idK⟩ false false true]]))
+    (.deleteB idK)).2 = none := by decide
+
+/-! #### why commit 7aca2fc was needed: the referrer lookup through `Sprintf` + `ast.Parse`
+
+  `OldRoute.referrersViaFilter` is the lookup as it was before the fix.  Table: r (boss r), `a"b`
+  (boss r), `x" or id != "` (boss `a"b`), z (boss r). -/
+
+open OldRoute in
+/-- id `a"b`: the text `boss = "a"b"` is no sentence — the delete failed with a parse error although
+    exactly one entity refers to `a"b` (which the direct comparison finds) -/
+example : referrersViaFilter (runHistory σ0 hist0).as symBoss idX = none ∧
+    referrers (runHistory σ0 hist0) (·.boss) idX = [idY] := by decide
+
+open OldRoute in
+/-- id `x" or id != "`: the text `boss = "x" or id != ""` matches EVERY entity — the cascade deleted
+    unrelated rows — although nothing refers to that id -/
+example : referrersViaFilter (runHistory σ0 hist0).as symBoss idY = some [idZ, idY, idX, idR] ∧
+    referrers (runHistory σ0 hist0) (·.boss) idY = [] := by decide
+
+open OldRoute in
+/-- id `a\` (trailing backslash): `boss = "a\"` has an unterminated literal — parse error;
+    id `a\nb` (backslash, n): the literal denotes a-LF-b, so the true referrer is not found -/
+example : referrersViaFilter [([109], ⟨none, some [97, 92], none⟩)] symBoss [97, 92] = none ∧
+    referrersViaFilter [([109], ⟨none, some [97, 92, 110, 98], none⟩)] symBoss [97, 92, 110, 98] = some [] ∧
+    referrers { as := [([109], ⟨none, some [97, 92, 110, 98], none⟩)] } (·.boss) [97, 92, 110, 98] = [[109]] := by
+  decide
+
+open OldRoute in
+/-- a filter-safe id: both routes agree -/
+example : referrersViaFilter (runHistory σ0 hist0).as symBoss idR = some [idZ, idX, idR] ∧
+    referrers (runHistory σ0 hist0) (·.boss) idR = [[97, 34, 98], idR, idZ] := by decide
+
+end Examples
+
+end StorageModel.Properties.C04
